@@ -302,8 +302,11 @@ def make_model(cfg, weather_df=None):
     model initialisations (the properties quantify over valid configurations, not over virgin objects)."""
     kw = build(cfg, weather_df)
     for _ in range(int(cfg.get("reuse", 0) or 0)):
+        from .observe import init_guard
+
         try:
-            AquaCropModel(**kw)._initialize()
+            with init_guard():
+                AquaCropModel(**kw)._initialize()
         except Exception:
             break
     return AquaCropModel(**kw)
